@@ -406,6 +406,22 @@ func (propC16) Run(scI interface{}) *Outcome {
 			}
 		} else {
 			B.RegisterLoader(clB)
+			if transferred && !faulted {
+				for _, n := range names {
+					if !clB.Exists(n) && !faulted {
+						return fail("the compiled loader denies a template it has just saved", n)
+					}
+				}
+				if sc.WorldSeed%3 == 1 {
+					// explicit pre-loading, one name at a time
+					for _, n := range names {
+						if err := clB.LoadCompiled(B, n); err != nil && !faulted {
+							return fail("LoadCompiled failed without a disk fault", fmt.Sprintf("%s: %v", n, err))
+						}
+					}
+					o.Probes["load_compiled"]++
+				}
+			}
 		}
 	}
 	o.Nontrivial = sc.Via != "bytes" || w.Stat[simrt.StPoolReuse] > 0
